@@ -20,14 +20,104 @@ RULE = ("direction A: TLC enumerates spec/FamC10.tla: 12 base programs covering 
 ASSUME = ["a renaming that the transpiler refuses with an error satisfies the property", "there is no cmd.exe in the sandbox: the Batch script runs under spec/CmdExe.tla (rules R1-R12), which states that set/!name!/labels are case-insensitive"]
 
 
+TSH_WORDS = set("if else for func return var switch case default break continue import range true false nil int string bool error print len itoa copy exists read write input panic".split())
+SHELL_WORDS = set("local echo printf eval read cat test if then else elif fi for do done while case esac in return exit set call goto rem equ neq lss leq gtr geq defined not exist setlocal "
+                  "endlocal enabledelayedexpansion errorlevel delims tokens cmd off on nul".split())
+
+
+def user_names(node, acc):
+    """identifiers of variables and parameters in a program (the names Rename.tla maps through rho.v)"""
+    if isinstance(node, dict):
+        k = node.get("k")
+        if k == "var":
+            acc.add(node["name"])
+        elif k in ("define", "assign"):
+            acc.update(node["names"])
+        elif k in ("compound", "incdec", "setidx"):
+            acc.add(node["name"])
+        elif k == "range":
+            acc.add(node["i"])
+            if node.get("v"):
+                acc.add(node["v"])
+        elif k == "copy":
+            acc.add(node["dst"])
+        elif k == "func":
+            acc.update(p["name"] for p in node["params"])
+        for v in node.values():
+            user_names(v, acc)
+    elif isinstance(node, list):
+        for v in node:
+            user_names(v, acc)
+
+
+def rename(node, old, new):
+    """the program with the variable `old` spelled `new` (spec/Rename.tla with rho.v = old :> new)"""
+    if isinstance(node, list):
+        return [rename(v, old, new) for v in node]
+    if not isinstance(node, dict):
+        return node
+    d = {k: rename(v, old, new) for k, v in node.items()}
+    k = node.get("k")
+    m = lambda n: new if n == old else n
+    if k == "var" or k in ("compound", "incdec", "setidx"):
+        d["name"] = m(node["name"])
+    elif k in ("define", "assign"):
+        d["names"] = [m(n) for n in node["names"]]
+    elif k == "range":
+        d["i"], d["v"] = m(node["i"]), m(node.get("v", ""))
+    elif k == "copy":
+        d["dst"] = m(node["dst"])
+    elif k == "func":
+        d["params"] = [dict(p, name=m(p["name"])) for p in node["params"]]
+    return d
+
+
+def derived_cases(ctx, bases):
+    """Names taken from the EMITTED scripts of the base programs: whatever a back-end writes into the script's name space - under any naming scheme, also one that
+    builds hidden names from the user's own (round 15: `_rs_<index variable>`) - is tried as the spelling of every user variable of that program."""
+    import re
+    res = progflow.validate(ctx, bases, "bases0")
+    keep = [(c, v) for cid, (c, v) in sorted(res.items()) if c["obs"].get("accepted") and "world" not in c["prog"]]
+    bat, _ = batflow.run_cmd(ctx, keep, tag="bases0bat")
+    out = []
+    for cid, (c, v) in sorted(res.items()):
+        users = set()
+        user_names(c["prog"], users)
+        text = c.get("script", "") + "\n" + (bat.get(cid, {}).get("bat") or "")
+        found = set(re.findall(r"(?:^|[\s;(\"])(?:local\s+|set\s+(?:/[AaPp]\s+)?\"?)?([A-Za-z_][A-Za-z0-9_]*)(?:\[[^\]=]*\])?\+?=", text, re.M))
+        found |= set(re.findall(r"\$\{?#?([A-Za-z_][A-Za-z0-9_]*)", text)) | set(re.findall(r"!([A-Za-z_][A-Za-z0-9_]*)[:!]", text))
+        names = set()
+        for n in found:
+            for cand in (n, re.sub(r"^[fF]\d+_", "", n)):
+                if cand and cand not in users and cand.lower() not in TSH_WORDS and cand.lower() not in SHELL_WORDS and re.fullmatch(r"[A-Za-z_][A-Za-z0-9_]*", cand):
+                    names.add(cand)
+        # one representative per numbered scheme (_h0 for _h0 ... _h17)
+        stems = {}
+        for n in sorted(names):
+            m = re.fullmatch(r"(.*?)(\d+)", n)
+            key = m.group(1) + "#" if m else n
+            if key not in stems or (m and int(m.group(2)) < int(re.fullmatch(r"(.*?)(\d+)", stems[key]).group(2))):
+                stems[key] = n
+        for n in sorted(stems.values()):
+            for u in sorted(users):
+                d = {"id": "C10/%s/derived-%s/%s" % (c["base"], u, n), "base": c["base"], "prog": rename(c["prog"], u, n)}
+                if "check" in c:
+                    d["check"] = c["check"]
+                out.append(d)
+        ctx.notes.setdefault("derived_names", {})[c["base"]] = sorted(stems.values())
+    return out
+
+
 def run(ctx):
     fam = ctx.tlc_family("FamC10", constants={"Tier": '"%s"' % ctx.tier}, timeout=3000)
     ctx.exhaustive["FamC10"] = True
+    derived = derived_cases(ctx, [c for c in fam if "/base/base" in c["id"]])
     if ctx.tier == "quick":
         fam.sort(key=lambda c: c["id"])
         keep = [c for i, c in enumerate(fam) if i % 3 == 0 or "/base/" in c["id"] or "/case/" in c["id"] or "/rotate/" in c["id"] or "/fn-" in c["id"] or "/compose/" in c["id"] or "/fnshape/" in c["id"] or "/shape2/" in c["id"] or ("/shape/" in c["id"] and i % 2 == 0) or "/writeonly/" in c["id"] or "/samelocal/" in c["id"] or "/numpair/" in c["id"]]
         ctx.exhaustive["FamC10"] = False
         fam = keep
+    fam = fam + derived
     res = progflow.validate(ctx, fam, "fam")
     base_out = {}
     for cid, (c, v) in res.items():
